@@ -4,7 +4,7 @@ import vlib, specgen, inv, arena
 from vlib import Result, log
 
 THEOREMS = ["C19_display_escaped", "C19_display_unescaped_refuted", "C19_mixed_path", "C19_nonvacuous", "C19_doc_lines_single",
-            "C19_doc_phys_lines_single", "C19_doc_phys_lines_content", "C19_doc_lines_unnormalized_refuted", "C19_doc_nonvacuous"]
+            "C19_doc_phys_lines_single", "C19_doc_phys_lines_content", "C19_doc_tokens_single", "C19_doc_tokens_content", "C19_doc_lines_unnormalized_refuted", "C19_doc_nonvacuous"]
 TARGETS = ["Props/C19.v"]
 INERT = "INERTxq7"
 
@@ -153,7 +153,7 @@ def main(tier, seed, replay=None):
     res = Result("C19", tier, seed)
     vlib.build_repo()
     vlib.build_vtool()
-    coq_ok, out = vlib.standard_coq_obligations(res, TARGETS, THEOREMS, expect_closed=5)
+    coq_ok, out = vlib.standard_coq_obligations(res, TARGETS, THEOREMS, expect_closed=7)
     cur = inv.current()
     ok, detail, n, gone = inv.compare("splice", cur)
     res.oblige(f"inventory: every place where a String becomes tokens other than through a literal ({n} site keys) is in the reviewed list", ok, detail)
